@@ -1,5 +1,8 @@
 /* implementation-side tool for C17: calls the file-type outputs built from the snapshot.
  *   impl_output one <kind> <path> <size> <fillbyte>          one record (traced by strace from outside)
+ *   impl_output seq <path> <size> <closed-stdin 0|1>          four records "1","2","3","4"-filled from ONE process: after record 1 the file is
+ *                                                            renamed to <path>.1 (rotation), after record 3 the process closes every descriptor
+ *                                                            above 2 and opens <path>.app itself; prints the number of open descriptors after each record
  *   impl_output stress <path> <writers> <records> <size>     concurrent writer processes, then nothing (python verifies the file) */
 #define _GNU_SOURCE
 #include <stdio.h>
@@ -7,6 +10,9 @@
 #include <string.h>
 #include <unistd.h>
 #include <sys/wait.h>
+#include <dirent.h>
+#include <fcntl.h>
+static int nfds(void) { int n = 0; DIR *d = opendir("/proc/self/fd"); struct dirent *e; while (d && (e = readdir(d))) if (e->d_name[0] != '.') n++; if (d) closedir(d); return n - 1; }
 int snoopy_output_fileoutput(char const *const, char const *const);
 int snoopy_output_devnulloutput(char const *const, char const *const);
 int snoopy_output_devttyoutput(char const *const, char const *const);
@@ -24,6 +30,20 @@ int main(int argc, char **argv) {
         else r = snoopy_output_devttyoutput(m, "");
         snoopy_cleanup();
         printf("ret %d\n", r);
+        return 0;
+    }
+    if (argc >= 5 && !strcmp(argv[1], "seq")) {
+        size_t n = strtoull(argv[3], 0, 10); char *m = malloc(n + 1); m[n] = 0;
+        char rot[4096], app[4096]; snprintf(rot, sizeof rot, "%s.1", argv[2]); snprintf(app, sizeof app, "%s.app", argv[2]);
+        if (atoi(argv[4])) close(0);
+        int base = nfds();
+        for (int k = 1; k <= 4; k++) {
+            memset(m, '0' + k, n);
+            snoopy_init(); int r = snoopy_output_fileoutput(m, argv[2]); snoopy_cleanup();
+            printf("rec %d ret %d fds %d\n", k, r, nfds() - base);
+            if (k == 1) rename(argv[2], rot);
+            if (k == 3) { for (int fd = 3; fd < 256; fd++) close(fd); int a = open(app, O_WRONLY | O_CREAT | O_TRUNC, 0644); if (a >= 0) (void)!write(a, "APPDATA\n", 8); base = nfds(); }
+        }
         return 0;
     }
     if (argc >= 6 && !strcmp(argv[1], "stress")) {
